@@ -19,9 +19,12 @@ class NumEval:
     here touch their inputs only through +, -, min, max, abs and comparisons, so a handful of representative points covers
     every ordering of the inputs). Locals are resolved through their (single) `let`; leaves get model values from `leaf`."""
 
+    facts = None          # set to the fact base to let the evaluator step into crate-local helpers
+
     def __init__(self, fn_body, leaf):
         self.body = fn_body
         self.leaf = leaf      # fn(node) -> float | None
+        self.env = {}         # parameter id of a helper being evaluated -> value
 
     def let_of(self, vid):
         """defining expression of a local: plain let, or element j of a tuple let with a tuple initialiser"""
@@ -58,10 +61,29 @@ class NumEval:
             if e.get("lk") == "Bool":
                 return bool(e["v"])
         if k == "Path" and e.get("res") == "local":
+            if e["id"] in self.env:
+                return self.env[e["id"]]
             init = self.let_of(e["id"])
             if init is None:
                 raise _NoEval("local %s" % e.get("name"))
             return self.ev(init, depth + 1)
+        if k in ("Call", "MethodCall") and self.facts is not None and (e.get("def") or "") in self.facts.bodies and self.facts.inlinable(e["def"]):
+            # a private helper: evaluate its body with the scalar arguments bound (struct arguments are seen through `leaf`)
+            cb = self.facts.bodies[e["def"]]
+            args = ([e["recv"]] if k == "MethodCall" else []) + list(e["args"])
+            saved_body, saved_env = self.body, dict(self.env)
+            new_env = dict(self.env)
+            for p_, a_ in zip(cb.get("params", []), args):
+                if p_.get("k") == "PBind":
+                    try:
+                        new_env[p_["id"]] = self.ev(a_, depth + 1)
+                    except _NoEval:
+                        pass
+            self.body, self.env = cb["body"], new_env
+            try:
+                return self.ev(cb["body"], depth + 1)
+            finally:
+                self.body, self.env = saved_body, saved_env
         if k == "Block" and all(st.get("k") == "Let" for st in e.get("stmts", [])):
             # locals are resolved lazily through let_of
             return self.ev(e.get("tail") if e.get("tail") is not None else e.get("expr"), depth + 1)
@@ -213,7 +235,23 @@ def r_sol_errmap(rep, f):
             raise _NoEval("depth")
         k = e.get("k")
         if k == "Block":
+            # guard clauses: `if <test on the flag> { return <option>; }` ahead of the tail
+            for st_ in e.get("stmts", []):
+                inner = st_.get("e") if st_.get("k") in ("ExprStmt", "Semi") else st_
+                if inner is None or inner.get("k") != "If":
+                    continue
+                if not tast.contains(inner, lambda z: z.get("k") == "Return"):
+                    continue
+                c = boolv(inner["cond"], dense, depth + 1)
+                br = inner["then"] if c else inner.get("else")
+                if br is None:
+                    continue
+                rets = tast.find(br, lambda z: z.get("k") == "Return")
+                if rets:
+                    return some_none(rets[0].get("e"), dense, at_line, depth + 1)
             return some_none(e.get("tail") if e.get("tail") is not None else e.get("expr"), dense, at_line, depth + 1)
+        if k in ("DropTemps", "Paren"):
+            return some_none(e["e"], dense, at_line, depth + 1)
         if k == "Call" and (e.get("def") or "").endswith("Some"):
             return "Some"
         if k == "Path" and (e.get("def") or "").endswith("None"):
@@ -496,12 +534,27 @@ def r_seg_filter(rep, f):
             or (c["op"] == "Gt" and absval(c["l"]) and zero(c["r"])) or (c["op"] == "Lt" and zero(c["l"]) and absval(c["r"])))
         if not ok:
             bad.append("filter(%s)" % tast.render(c)[:80])
-    if conds:
-        bad.append("conditional skip: %s" % tast.render(conds[0].get("cond") or conds[0].get("scrut"))[:60])
+    for cnd in conds:
+        c = cnd.get("cond") if cnd.get("k") == "If" else None
+        while c is not None and c.get("k") in ("DropTemps", "Paren"):
+            c = c["e"]
+        # `if h == 0.0 { continue }` (the step length bound at the tuple's last position) drops exactly the degenerate segments
+        okc = False
+        if c is not None and c.get("k") == "Binary" and c["op"] == "Eq" and cnd.get("else") is None:
+            for side, other in ((c["l"], c["r"]), (c["r"], c["l"])):
+                sd = side
+                while sd.get("k") == "Unary" and sd.get("op") == "Deref":
+                    sd = sd["e"]
+                if sd.get("k") == "Path" and sd.get("res") == "local" and other.get("k") == "Lit" and other.get("lk") in ("Float", "Int") and float(other.get("v")) == 0.0:
+                    pts = tast.find(b["body"], lambda z: z.get("k") == "PTuple" and len(z.get("pats", [])) == 3 and z["pats"][2].get("k") == "PBind" and z["pats"][2].get("id") == sd.get("id"))
+                    jumps = tast.find(cnd["then"], lambda z: z.get("k") in ("Continue", "Break", "Return"))
+                    okc = bool(pts) and len(jumps) == 1 and jumps[0].get("k") == "Continue" and not tast.contains(cnd["then"], lambda z: z.get("k") in ("Assign", "AssignOp", "MethodCall", "Call"))
+        if not okc:
+            bad.append("conditional skip: %s" % tast.render(cnd.get("cond") or cnd.get("scrut"))[:60])
     if bad:
         rep.violation("R-SEG-KEEP", key, "from_segments can drop a non-degenerate segment (%s): a real accepted step would be missing from sol(t), shrinking the covered span or leaving a gap" % bad[:2], (droppers or conds)[0].get("sp"))
     else:
-        rep.ok("R-SEG-KEEP", key, "every segment is kept except those with h == 0 (%d filter(s))" % len(droppers))
+        rep.ok("R-SEG-KEEP", key, "every segment is kept except those with h == 0 (%d filter(s), %d guarded skip(s))" % (len(droppers), len(conds)))
 
 
 SEG_FIELD = "solve::solout::DefaultSolOut::dense_segs"
@@ -616,14 +669,18 @@ def r_seg_verbatim(rep, f):
         return
     rb = f.bodies[rfn]["body"]
     ctor = None
-    for cl in tast.find(rb, lambda z: z.get("k") == "Closure"):
-        calls = tast.find(cl["body"], lambda z: z.get("k") == "Call" and (z.get("def") or "") == "dense::DenseSegment::new")
-        if calls and cl["params"] and cl["params"][0].get("k") == "PTuple":
-            ctor = (cl["params"][0]["pats"], calls[0])
+    calls = tast.find(rb, lambda z: z.get("k") == "Call" and (z.get("def") or "") == "dense::DenseSegment::new")
+    if len(calls) == 1:
+        # the tuple pattern (closure parameter, for-loop pattern or let) that binds the call's arguments
+        arg_ids = {a.get("id") for a in calls[0]["args"] if a.get("k") == "Path" and a.get("res") == "local"}
+        pts = [z for z in tast.find(rb, lambda z: z.get("k") == "PTuple" and len(z.get("pats", [])) == 3)
+               if sum(1 for q in z["pats"] if q.get("k") == "PBind" and q.get("id") in arg_ids) >= 2]
+        if len(pts) == 1:
+            ctor = (pts[0]["pats"], calls[0])
     nb = f.bodies["dense::DenseSegment::new"]
     lit = tast.find(nb["body"], lambda z: z.get("k") == "Struct")
     if ctor is None or len(lit) != 1:
-        rep.inconc(key, key + ":reader", "from_segments does not build the segments with one closure over the stored tuple calling DenseSegment::new")
+        rep.inconc(key, key + ":reader", "from_segments does not build the segments with one DenseSegment::new call over one destructuring of the stored tuple")
         return
     pids = [p["id"] for p in nb.get("params", []) if p.get("k") == "PBind"]
     field_of_param = {}
@@ -804,6 +861,7 @@ def r_seg_lookup(rep, f):
     """segment lookup is direction-agnostic: a time inside a segment is found whether the segment was produced by a
     forward (h > 0) or a backward (h < 0) step, a time well outside is not. The membership test that guards `return
     Some(seg)` is evaluated at model points for both signs of h (finite abstract evaluation)"""
+    NumEval.facts = f
     for name in ("find_segment", "find_segment_extrapolate"):
         fn = CONT + name
         b = f.bodies.get(fn)
